@@ -2,6 +2,7 @@ package dsig
 
 import (
 	"encoding/json"
+	"errors"
 	"fmt"
 
 	"github.com/go-jose/go-jose/v4"
@@ -109,7 +110,7 @@ func (s *Signature) parse(data string) error {
 // KeyID extracts the ID used to generate the signature from the
 // headers.
 func (s *Signature) KeyID() string {
-	if s.jws == nil || len(s.jws.Signatures) == 0 {
+	if s == nil || s.jws == nil || len(s.jws.Signatures) == 0 {
 		return ""
 	}
 	return s.jws.Signatures[0].Header.KeyID
@@ -117,7 +118,7 @@ func (s *Signature) KeyID() string {
 
 // JKU returns the signatures JKU header property value.
 func (s *Signature) JKU() string {
-	if s.jws == nil || len(s.jws.Signatures) == 0 {
+	if s == nil || s.jws == nil || len(s.jws.Signatures) == 0 {
 		return ""
 	}
 	jku, ok := s.jws.Signatures[0].Header.ExtraHeaders[headerJKU].(string)
@@ -129,7 +130,7 @@ func (s *Signature) JKU() string {
 
 // String provides the compact form signature.
 func (s *Signature) String() string {
-	if s.jws == nil {
+	if s == nil || s.jws == nil {
 		return ""
 	}
 	d, err := s.jws.CompactSerialize()
@@ -142,6 +143,9 @@ func (s *Signature) String() string {
 // Verify will ensure that the provided key was used to sign the
 // signature and will provide the raw data that was signed.
 func (s *Signature) Verify(key *PublicKey) ([]byte, error) {
+	if s == nil || s.jws == nil || key == nil {
+		return nil, ErrKeyMismatch
+	}
 	data, err := s.jws.Verify(key.jwk)
 	if err != nil {
 		// at the risk of hiding useful errors, provide our own
@@ -166,6 +170,9 @@ func (s *Signature) VerifyPayload(key *PublicKey, payload any) error {
 // Unsafe provides the raw data that was signed, but will not check
 // any of the signatures.
 func (s *Signature) Unsafe() []byte {
+	if s == nil || s.jws == nil {
+		return nil
+	}
 	return s.jws.UnsafePayloadWithoutVerification()
 }
 
@@ -203,7 +210,7 @@ func (s *Signature) UnmarshalJSON(data []byte) error {
 		return fmt.Errorf("dsig: %w", err)
 	}
 	if len(str) == 0 {
-		return nil
+		return errors.New("dsig: empty signature")
 	}
 	return s.parse(str)
 }
